@@ -1,6 +1,7 @@
 // C18 harness: "shared const objects are thread-safe with schedule-independent results".
 //
-//   c18_shared <quick|thorough> [only]      only in {loop,user,tune,fit,tieprobe}; default: all except tieprobe
+//   c18_shared <quick|thorough|tsan> [only]   only in {loop,user,tune,fit,tieprobe}[:<scenario number>]; default: all except tieprobe;
+//                                             tsan = reduced scenario set for the ThreadSanitizer run of the quick tier
 //
 // Everything random derives from VERIF_SEED (vh::env_seed()); a scenario's generator is a hash of (seed, family, scenario
 // number) so that a scenario can be reproduced alone. NANO_VERIF hooks: g_max_threads = 16 (pools of up to 16 workers on
@@ -35,8 +36,8 @@
 //     stored statistics are the callback's; `closest` is empty (first batch only) or from a trial < old_trials of the same fold;
 //     params / values / statistics / optimum trial bit-identical between pool sizes.
 //
-//  FIT <id> model=<..> threads=<1|2|16> n=<samples> features=<selected features or -> maxrel=<%a> result=<same|diff> [affinity=<cpus>]
-//     full fit() of linear models / gboost with g_max_threads = 1, 2, 16 (dataset pool and tune pool of that size); compared
+//  FIT <id> model=<..> threads=<1|2|4|16> n=<samples> features=<selected features or -> maxrel=<%a> result=<same|diff> [affinity=<cpus>]
+//     full fit() of linear models / gboost with g_max_threads = 1, 2, 4, 16 (dataset pool and tune pool of that size); compared
 //     with the 1-thread fit: gboost selected features and number of weak learners equal, predictions within 1e-5 relative
 //     (|a-b| <= 1e-5 max(|a|,|b|,rms of the reference predictions)). thorough: repeated under restricted CPU affinity.
 //     NB: gboost::max_rounds has the domain [10, 1e6]: 10 rounds are used (the smallest admissible value).
@@ -44,7 +45,8 @@
 //  TIEPROBE run=<i> threads=<t> features=<list> / TIEPROBE-SUMMARY distinct_feature_sets=<k>   (only on request, never FAIL)
 //
 //  FAIL <family> <what happened> ;; <seed, scenario number and all parameters>      (at most 40 printed, all counted)
-//  DONE scenarios=<n> fails=<m> loops=<LOOP lines> users=<USER lines> tunes=<TUNET lines> fits=<FIT lines>
+//  CAND <kind> <what happened> ;; <context>     differences of a kind recorded as candidate finding of the unchanged code (not FAIL)
+//  DONE scenarios=<n> fails=<m> cands=<c> loops=<LOOP lines> users=<USER lines> tunes=<TUNET lines> fits=<FIT lines>
 #include "common.h"
 #include <algorithm>
 #include <any>
@@ -131,18 +133,8 @@ std::atomic<bool>                            g_tune_on{false};
 std::atomic<int>                             g_tune_batches{0};
 std::array<std::atomic<uint64_t>, max_batches> g_tune_batch_tasks;
 
-void on_event(int kind, const void*, uint64_t a, uint64_t)
-{
-    if (!g_tune_on.load(std::memory_order_relaxed)) return;
-    if (kind == verif::ev_push_all || kind == verif::ev_map_inline)
-    {
-        const auto k = g_tune_batches.fetch_add(1);
-        if (k >= 0 && static_cast<size_t>(k) < max_batches) g_tune_batch_tasks[static_cast<size_t>(k)].store(a);
-    }
-}
-
 std::mutex g_out;
-long       g_fails = 0, g_scenarios = 0, g_loops = 0, g_users = 0, g_tunes = 0, g_fits = 0;
+long       g_fails = 0, g_cands = 0, g_scenarios = 0, g_loops = 0, g_users = 0, g_tunes = 0, g_fits = 0;
 long       g_next_obj = 0;
 
 void emit(const std::string& line)
@@ -155,6 +147,14 @@ void fail(const std::string& family, const std::string& what, const std::string&
     const std::scoped_lock lock(g_out);
     ++g_fails;
     if (g_fails <= 40) std::fputs(("FAIL " + family + " " + what + " ;; " + ctx + "\n").c_str(), stdout);
+}
+
+// a difference of the kind recorded as a CANDIDATE finding of the unchanged code (see notes/C18.md): not a FAIL
+void cand(const std::string& kind, const std::string& what, const std::string& ctx)
+{
+    const std::scoped_lock lock(g_out);
+    ++g_cands;
+    if (g_cands <= 40) std::fputs(("CAND " + kind + " " + what + " ;; " + ctx + "\n").c_str(), stdout);
 }
 
 uint64_t mix(uint64_t a, uint64_t b)
@@ -431,7 +431,8 @@ int64_t check_flatten(const src_t& src, const indices_t& samples, int64_t b, int
     for (int64_t i = b; i < e; ++i)
         for (tensor_size_t c = 0; c < src.columns; ++c)
         {
-            const auto g = got(i - b, c), w = src.e(samples(i), c);
+            // (the iterators replace missing values by zero after scaling: scalar_stats_t::scale -> nan2zero)
+            const auto g = got(i - b, c), w0 = src.e(samples(i), c), w = std::isnan(w0) ? 0.0 : w0;
             if (!same_val(g, w)) mark_bad(r, "flatten-value", i, c, g, w);
             s += q64(g);
         }
@@ -1138,10 +1139,722 @@ void user_predict(const uint64_t seed, const long scenario, const bool gboost)
     ++g_scenarios;
 }
 
-//@@PART4@@
+// ------------------------------------------------------------------------------------------------------------------
+// (3) TUNE: nano::ml::tune driven directly with a deterministic callback; tune pools of 1, 2 and 16 workers
+// ------------------------------------------------------------------------------------------------------------------
+struct textra_t
+{
+    int64_t uid{-1};
+    int64_t fold{-1};
+};
+
+struct tcall_t
+{
+    vec_t    params;
+    int64_t  fold{-1}, uid{-1}, batch{-1};
+    bool     has_closest{false};
+    int64_t  cuid{-1}, cfold{-1};
+    int      tid{-1};
+    uint64_t t0{0}, t1{0};
+    int64_t  trial{-1}; // decoded afterwards
+};
+
+struct tune_out_t
+{
+    std::string exc;
+    int64_t     trials{0}, folds{0}, optimum{-1};
+    vec_t       params, means;
+};
+
+std::atomic<const void*> g_tune_queue{nullptr};
+
+void on_event_tune(int kind, const void* object, uint64_t a, uint64_t)
+{
+    if (!g_tune_on.load(std::memory_order_acquire)) return;
+    if (kind == verif::ev_push_all || kind == verif::ev_map_inline)
+    {
+        // the first pool that maps while a TUNE scenario runs is ml::tune's own pool (the callback uses no pool)
+        const void* expected = nullptr;
+        g_tune_queue.compare_exchange_strong(expected, object);
+        if (g_tune_queue.load() != object) return;
+        const auto k = g_tune_batches.fetch_add(1);
+        if (k >= 0 && static_cast<size_t>(k) < max_batches) g_tune_batch_tasks[static_cast<size_t>(k)].store(a);
+    }
+}
+
+void fill_values(tensor2d_t& out, const tensor_size_t n, const int64_t Merr, const int64_t Mloss)
+{
+    // per-sample values whose mean is exactly M/1024: m + delta_i with sum(delta) = 0, all multiples of 1/1024
+    out.resize(2, n);
+    for (int row = 0; row < 2; ++row)
+    {
+        const auto m = static_cast<double>(row == 0 ? Merr : Mloss) / 1024.0;
+        for (tensor_size_t i = 0; i < n; ++i)
+        {
+            double delta = 0.0;
+            if (i + 1 < n || n % 2 == 0) delta = ((i % 2 == 0) ? 1.0 : -1.0) * static_cast<double>(1 + (i / 2) % 5) / 1024.0;
+            out(row, i) = m + delta;
+        }
+    }
+}
+
+void run_tune(const uint64_t seed, const long scenario)
+{
+    vh::rng_t  rng(mix(seed ^ 0x300E300EULL, static_cast<uint64_t>(scenario)));
+    const auto dims      = static_cast<size_t>(rng.range(0, 7) == 0 ? 0 : rng.range(1, 2));
+    const auto folds     = static_cast<int64_t>(rng.range(2, 6));
+    const auto nsamples  = static_cast<tensor_size_t>(rng.range(std::max<int64_t>(2 * folds, 12), 60));
+    const bool surrogate = rng.range(0, 3) == 0;
+    const auto max_evals = static_cast<int64_t>(rng.range(10, 20)); // domain of tuner::max_evals: [10, 1000]
+    const bool rsplit    = rng.range(0, 3) == 0;
+    const auto splitseed = static_cast<int64_t>(rng.range(0, 1024));
+    const auto delay     = static_cast<int>(rng.range(0, 2));
+    const auto sseed     = rng.next();
+    const auto nseed     = rng.next();
+
+    // grids (log10 or linear), centre of the landscape
+    std::vector<vec_t> grid(dims);
+    std::vector<int>   glog(dims);
+    vec_t              centre(dims);
+    for (size_t i = 0; i < dims; ++i)
+    {
+        glog[i]      = rng.range(0, 1) != 0;
+        const auto k = static_cast<int>(rng.range(4, 9));
+        for (int j = 0; j < k; ++j) grid[i].push_back(glog[i] ? std::pow(10.0, j - k / 2) : static_cast<double>(j) * 0.25);
+        centre[i] = static_cast<double>(rng.range(0, k - 1));
+    }
+    const auto spaces = [&]()
+    {
+        param_spaces_t sp;
+        for (size_t i = 0; i < dims; ++i)
+        {
+            tensor1d_t v(static_cast<tensor_size_t>(grid[i].size()));
+            for (size_t k = 0; k < grid[i].size(); ++k) v(static_cast<tensor_size_t>(k)) = grid[i][k];
+            sp.emplace_back("p" + std::to_string(i), glog[i] ? param_space_t::type::log10 : param_space_t::type::linear, v);
+        }
+        return sp;
+    };
+    const auto gindex = [&](size_t i, double v) -> int64_t
+    {
+        for (size_t k = 0; k < grid[i].size(); ++k)
+            if (grid[i][k] == v) return static_cast<int64_t>(k);
+        return -1;
+    };
+    // exact dyadic landscape: a bowl around `centre` + a fold-dependent offset; which: 0 valid errors, 1 valid losses, 2 train errors, 3 train losses
+    const auto Mval = [&](const vec_t& p, const int64_t fold, const int which) -> int64_t
+    {
+        int64_t b = 0, h = 0;
+        for (size_t i = 0; i < p.size() && i < dims; ++i)
+        {
+            const auto g = gindex(i, p[i]);
+            const auto d = static_cast<int64_t>(g) - static_cast<int64_t>(centre[i]);
+            b += 8 * d * d;
+            h = h * 31 + g + 1;
+        }
+        const auto n = static_cast<int64_t>(mix(nseed, static_cast<uint64_t>(h * 64 + fold)) % 7);
+        switch (which)
+        {
+        case 0: return 16 + b + n;
+        case 1: return 10000 + ((b * 7 + n * 3) % 4099);
+        case 2: return 30000 - (b + n);
+        default: return 50000 - ((b * 5 + n) % 4099);
+        }
+    };
+
+    indices_t samples(nsamples);
+    {
+        int64_t x = rng.range(0, 5);
+        for (tensor_size_t i = 0; i < nsamples; ++i) { samples(i) = x; x += rng.range(1, 3); }
+    }
+    auto fit_params = make_fit_params(rsplit ? "random" : "k-fold", folds, splitseed, surrogate ? "surrogate" : "local-search", max_evals, "lbfgs", 1e-8, 100);
+    const auto splits = fit_params.splitter().split(samples);
+    const auto ctx    = seedctx("tune", scenario) + " dims=" + std::to_string(dims) + " folds=" + std::to_string(folds) + " samples=" + std::to_string(nsamples) +
+                     " tuner=" + (surrogate ? "surrogate" : "local-search") + " max_evals=" + std::to_string(max_evals) + " splitter=" + (rsplit ? "random" : "k-fold") +
+                     ":" + std::to_string(splitseed) + " delay=" + std::to_string(delay);
+    if (static_cast<int64_t>(splits.size()) != folds) return;
+    for (size_t a = 0; a < splits.size(); ++a)
+        for (size_t b = a + 1; b < splits.size(); ++b)
+            if (splits[a].first == splits[b].first && splits[a].second == splits[b].second) return; // folds must be identifiable
+
+    std::vector<tune_out_t> outs;
+    static const size_t     pools[] = {1, 2, 16};
+    for (const auto P : pools)
+    {
+        std::mutex           mutex;
+        std::vector<tcall_t> calls;
+        std::atomic<int64_t> next_uid{0};
+
+        const ml::tune_callback_t callback = [&](const indices_t& tr, const indices_t& vd, tensor1d_cmap_t params, const std::any& closest, const logger_t&)
+        {
+            tcall_t c;
+            c.t0    = stamp();
+            c.tid   = my_tid();
+            c.uid   = next_uid.fetch_add(1);
+            c.batch = g_tune_batches.load() - 1;
+            c.params.assign(params.data(), params.data() + params.size());
+            for (size_t f = 0; f < splits.size(); ++f)
+                if (splits[f].first == tr && splits[f].second == vd) c.fold = static_cast<int64_t>(f);
+            c.has_closest = closest.has_value();
+            if (c.has_closest)
+                if (const auto* e = std::any_cast<textra_t>(&closest); e != nullptr) { c.cuid = e->uid; c.cfold = e->fold; }
+            int64_t h = 0;
+            for (const auto v : c.params) { uint64_t bits = 0; std::memcpy(&bits, &v, sizeof(bits)); h = static_cast<int64_t>(mix(static_cast<uint64_t>(h), bits)); }
+            const auto z = mix(sseed, static_cast<uint64_t>(h) * 64U + static_cast<uint64_t>(std::max<int64_t>(c.fold, 0)));
+            if (delay > 0) busy_us(static_cast<int>(z % (delay == 1 ? 40U : 200U)));
+            tensor2d_t trv, vdv;
+            const auto fold = std::max<int64_t>(c.fold, 0);
+            fill_values(trv, tr.size(), Mval(c.params, fold, 2), Mval(c.params, fold, 3));
+            fill_values(vdv, vd.size(), Mval(c.params, fold, 0), Mval(c.params, fold, 1));
+            textra_t extra{c.uid, c.fold};
+            c.t1 = stamp();
+            {
+                const std::scoped_lock lock(mutex);
+                calls.push_back(c);
+            }
+            return std::make_tuple(std::move(trv), std::move(vdv), std::any{extra});
+        };
+
+        verif::g_max_threads.store(P);
+        g_tune_batches.store(0);
+        g_tune_queue.store(nullptr);
+        g_delay_level.store(delay);
+        g_sched_seed.store(sseed + P);
+        g_tune_on.store(true, std::memory_order_release);
+        ml::result_t result;
+        tune_out_t   out;
+        try
+        {
+            result = ml::tune("c18", samples, fit_params, spaces(), callback);
+        }
+        catch (const std::exception& e)
+        {
+            out.exc = e.what();
+        }
+        g_tune_on.store(false, std::memory_order_release);
+        g_delay_level.store(0);
+        verif::g_max_threads.store(16U);
+        const auto pctx = ctx + " pool=" + std::to_string(P);
+
+        const auto nb = std::min<int64_t>(g_tune_batches.load(), static_cast<int64_t>(max_batches));
+        if (!out.exc.empty())
+        {
+            // (a surrogate that cannot be fitted throws: legitimate as long as every pool size does the same)
+            outs.push_back(out);
+            continue;
+        }
+        out.trials  = result.trials();
+        out.folds   = result.folds();
+        out.optimum = result.optimum_trial();
+        if (out.folds != folds) fail("tune", "result has " + std::to_string(out.folds) + " folds", pctx);
+        for (tensor_size_t t = 0; t < result.trials(); ++t)
+        {
+            const auto p = result.params(t);
+            out.params.insert(out.params.end(), p.data(), p.data() + p.size());
+            for (tensor_size_t f = 0; f < result.folds(); ++f)
+                for (const auto split : {ml::split_type::train, ml::split_type::valid})
+                    for (const auto value : {ml::value_type::errors, ml::value_type::losses}) out.means.push_back(result.stats(t, f, split, value).m_mean);
+        }
+
+        // decode: batch k covers the trials [old_k, old_k + new_k)
+        std::vector<int64_t> olds, news;
+        int64_t              old = 0;
+        for (int64_t k = 0; k < nb; ++k)
+        {
+            const auto a = static_cast<int64_t>(g_tune_batch_tasks[static_cast<size_t>(k)].load());
+            if (a % folds != 0) fail("tune", "batch " + std::to_string(k) + " maps " + std::to_string(a) + " tasks: not a multiple of the number of folds", pctx);
+            olds.push_back(old);
+            news.push_back(a / folds);
+            old += a / folds;
+        }
+        if (old != out.trials) fail("tune", "the batches cover " + std::to_string(old) + " trials, the result has " + std::to_string(out.trials), pctx);
+        std::map<std::pair<int64_t, int64_t>, int64_t> owner;  // (trial, fold) -> uid of the computing task
+        std::map<int64_t, std::pair<int64_t, int64_t>> where;  // uid -> (trial, fold)
+        std::sort(calls.begin(), calls.end(), [](const tcall_t& a, const tcall_t& b) { return a.uid < b.uid; });
+        for (auto& c : calls)
+        {
+            if (c.fold < 0) { fail("tune", "a task was given a (train, validation) split that is not one of the folds", pctx); continue; }
+            if (c.batch < 0 || c.batch >= nb) { fail("tune", "a task ran outside any batch (batch " + std::to_string(c.batch) + ")", pctx); continue; }
+            const auto o = olds[static_cast<size_t>(c.batch)], n = news[static_cast<size_t>(c.batch)];
+            for (int64_t t = o; t < o + n && t < out.trials && c.trial < 0; ++t)
+            {
+                const auto p = result.params(t);
+                if (p.size() == static_cast<tensor_size_t>(c.params.size()) && std::equal(c.params.begin(), c.params.end(), p.data(), same_val) &&
+                    owner.find({t, c.fold}) == owner.end())
+                    c.trial = t;
+            }
+            if (c.trial < 0)
+            {
+                fail("tune", "task uid=" + std::to_string(c.uid) + " fold=" + std::to_string(c.fold) + " of batch " + std::to_string(c.batch) +
+                                 " evaluates parameters that are no free trial of its batch (computed twice, or outside the batch)", pctx);
+                continue;
+            }
+            owner[{c.trial, c.fold}] = c.uid;
+            where[c.uid]             = {c.trial, c.fold};
+        }
+        std::string table;
+        for (int64_t t = 0; t < out.trials; ++t)
+            for (int64_t f = 0; f < folds; ++f)
+            {
+                const auto  it = owner.find({t, f});
+                const auto* e  = std::any_cast<textra_t>(&result.extra(t, f));
+                const auto  rb = e != nullptr ? e->uid : -1;
+                const auto  ex = it != owner.end() ? it->second : -2;
+                if (it == owner.end()) fail("tune", "(trial " + std::to_string(t) + ", fold " + std::to_string(f) + ") was never computed", pctx);
+                else if (rb != ex)
+                    fail("tune", "extra(trial " + std::to_string(t) + ", fold " + std::to_string(f) + ") holds the model of task uid=" + std::to_string(rb) +
+                                     ", the task that computed it is uid=" + std::to_string(ex), pctx);
+                table += (table.empty() ? "" : " ") + std::to_string(ex) + "=" + std::to_string(rb);
+                // the stored statistics are the callback's
+                if (it != owner.end())
+                {
+                    const vec_t p(out.params.begin() + static_cast<std::ptrdiff_t>(t * static_cast<int64_t>(dims)),
+                                  out.params.begin() + static_cast<std::ptrdiff_t>((t + 1) * static_cast<int64_t>(dims)));
+                    const double want[4] = {static_cast<double>(Mval(p, f, 2)) / 1024.0, static_cast<double>(Mval(p, f, 3)) / 1024.0,
+                                            static_cast<double>(Mval(p, f, 0)) / 1024.0, static_cast<double>(Mval(p, f, 1)) / 1024.0};
+                    for (int q = 0; q < 4; ++q)
+                    {
+                        const auto got = out.means[static_cast<size_t>((t * folds + f) * 4 + q)];
+                        if (!same_val(got, want[q]))
+                            fail("tune", "stored mean #" + std::to_string(q) + " of (trial " + std::to_string(t) + ", fold " + std::to_string(f) + ") is " + vh::hexf(got) +
+                                             ", the callback returned values with mean " + vh::hexf(want[q]), pctx);
+                    }
+                }
+            }
+        // warm start: empty in the first batch, otherwise the model of result.closest_trial(params, old_trials) and the same fold
+        for (const auto& c : calls)
+        {
+            if (c.trial < 0) continue;
+            const auto o = olds[static_cast<size_t>(c.batch)];
+            if (o == 0)
+            {
+                if (c.has_closest) fail("tune", "a task of the first batch received a warm-start model (uid " + std::to_string(c.cuid) + ")", pctx);
+                continue;
+            }
+            const auto want = result.closest_trial(result.params(c.trial), o);
+            const auto it   = where.find(c.cuid);
+            if (!c.has_closest || it == where.end())
+                fail("tune", "task (trial " + std::to_string(c.trial) + ", fold " + std::to_string(c.fold) + ") received no / an unknown warm-start model although " +
+                                 std::to_string(o) + " earlier trials exist", pctx);
+            else if (it->second.first != want || it->second.second != c.fold || c.cfold != c.fold)
+                fail("tune", "task (trial " + std::to_string(c.trial) + ", fold " + std::to_string(c.fold) + ") received the model of (trial " + std::to_string(it->second.first) +
+                                 ", fold " + std::to_string(it->second.second) + "), expected (trial " + std::to_string(want) + ", fold " + std::to_string(c.fold) + ")", pctx);
+        }
+        for (int64_t k = 0; k < nb; ++k)
+        {
+            std::string tasks;
+            for (const auto& c : calls)
+            {
+                if (c.batch != k || c.trial < 0) continue;
+                const auto it = where.find(c.cuid);
+                const auto ct = (c.has_closest && it != where.end()) ? it->second.first : -1;
+                const auto cf = (c.has_closest && it != where.end()) ? it->second.second : -1;
+                tasks += (tasks.empty() ? "" : " ") + std::to_string(c.trial) + ":" + std::to_string(c.fold) + ":" + std::to_string(ct) + ":" + std::to_string(cf) + ":" +
+                         std::to_string(c.tid) + ":" + std::to_string(c.t0) + ":" + std::to_string(c.t1);
+            }
+            emit("TUNEB " + std::to_string(g_tunes) + " pool=" + std::to_string(P) + " batch=" + std::to_string(k) + " old=" + std::to_string(olds[static_cast<size_t>(k)]) +
+                 " new=" + std::to_string(news[static_cast<size_t>(k)]) + " folds=" + std::to_string(folds) + " | " + tasks);
+        }
+        emit("TUNET " + std::to_string(g_tunes++) + " pool=" + std::to_string(P) + " folds=" + std::to_string(folds) + " trials=" + std::to_string(out.trials) + " | " + table);
+        outs.push_back(out);
+    }
+    // schedule independence: the tuning is bit-identical whatever the size of the pool
+    for (size_t k = 1; k < outs.size(); ++k)
+    {
+        const auto &a = outs[0], &b = outs[k];
+        const auto kctx = ctx + " pool=" + std::to_string(pools[k]) + " vs pool=1";
+        if (a.exc != b.exc) { fail("tune", "exception `" + b.exc + "` vs `" + a.exc + "`", kctx); continue; }
+        if (a.trials != b.trials) fail("tune", "number of trials " + std::to_string(b.trials) + " vs " + std::to_string(a.trials), kctx);
+        if (a.optimum != b.optimum) fail("tune", "optimum trial " + std::to_string(b.optimum) + " vs " + std::to_string(a.optimum), kctx);
+        cmp_vec("tune", kctx, 0, 0, "params", a.params, b.params);
+        cmp_vec("tune", kctx, 0, 0, "mean statistics", a.means, b.means);
+    }
+    ++g_scenarios;
+}
+
+// ------------------------------------------------------------------------------------------------------------------
+// (4) FIT: full fit() of linear / gboost models with pools of 1, 2, 4 and 16 workers
+// ------------------------------------------------------------------------------------------------------------------
+struct fit_cfg_t
+{
+    int         kind{0}; // 0..3 linear (ordinary, lasso, ridge, elastic_net), 4 gboost
+    std::string model, solver, tuner, splitter;
+    int64_t     folds{2}, splitseed{0}, tuner_evals{8}, max_evals{500}, batch{16};
+    double      epsilon{1e-10};
+    std::string scaling;
+    std::vector<std::string> wlearners;
+    std::string subsample, shrinkage, wscale;
+    int64_t     gseed{42}, rounds{10};
+    double      ratio{1.0};
+};
+
+struct fit_out_t
+{
+    std::string                exc;
+    vec_t                      pred;
+    std::vector<tensor_size_t> features;
+    size_t                     nwlearners{0};
+    std::string                wdesc; // the merged weak learners: type:features ...
+    int64_t                    trials{0}, optimum{-1};
+    vec_t                      optparams, trial_params;
+    double                     optvalue{0}; // mean validation error of the optimum trial
+};
+
+void store_tuning(fit_out_t& o, const ml::result_t& result)
+{
+    o.trials  = result.trials();
+    o.optimum = result.optimum_trial();
+    const auto p = result.params(result.optimum_trial());
+    o.optparams.assign(p.data(), p.data() + p.size());
+    for (tensor_size_t t = 0; t < result.trials(); ++t)
+    {
+        const auto q = result.params(t);
+        o.trial_params.insert(o.trial_params.end(), q.data(), q.data() + q.size());
+    }
+    o.optvalue = result.value(result.optimum_trial());
+}
+
+// dataset_threads: size of the dataset's pool (iterators, objective functions, weak learners); threads: pool_t::max_size()
+// while fitting = size of the pool ml::tune creates itself (0: same as dataset_threads)
+fit_out_t do_fit(const src_t& src, const fit_cfg_t& cfg, const size_t dataset_threads, size_t threads = 0)
+{
+    fit_out_t o;
+    if (threads == 0) threads = dataset_threads;
+    verif::g_max_threads.store(dataset_threads);
+    try
+    {
+        const auto dataset = make_dataset(src, 0); // default pool = pool_t::max_size()
+        if (dataset->concurrency() != dataset_threads) o.exc = "dataset pool of " + std::to_string(dataset->concurrency()) + " workers";
+        verif::g_max_threads.store(threads);
+        const auto loss   = loss_t::all().get("mse");
+        const auto all    = arange(0, src.n);
+        const auto params = make_fit_params(cfg.splitter, cfg.folds, cfg.splitseed, cfg.tuner, cfg.tuner_evals, cfg.solver, cfg.epsilon, cfg.max_evals);
+        if (cfg.kind < 4)
+        {
+            auto model = linear_t::all().get(cfg.model);
+            model->parameter("linear::batch")   = cfg.batch;
+            model->parameter("linear::scaling") = cfg.scaling;
+            const auto result = model->fit(*dataset, all, *loss, params);
+            store_tuning(o, result);
+            const auto out = model->predict(*dataset, all);
+            o.pred.assign(out.data(), out.data() + out.size());
+        }
+        else
+        {
+            auto model = gboost_model_t{};
+            model.parameter("gboost::max_rounds")      = cfg.rounds;
+            model.parameter("gboost::batch")           = cfg.batch;
+            model.parameter("gboost::seed")            = cfg.gseed;
+            model.parameter("gboost::subsample")       = cfg.subsample;
+            model.parameter("gboost::shrinkage")       = cfg.shrinkage;
+            model.parameter("gboost::wscale")          = cfg.wscale;
+            model.parameter("gboost::subsample_ratio") = cfg.ratio;
+            model.prototypes(make_prototypes(cfg.wlearners));
+            const auto result = model.fit(*dataset, all, *loss, params);
+            store_tuning(o, result);
+            const auto f = model.features();
+            o.features.assign(f.data(), f.data() + f.size());
+            o.nwlearners = model.wlearners().size();
+            for (const auto& wl : model.wlearners()) o.wdesc += (o.wdesc.empty() ? "" : ",") + wl->type_id() + ":" + il(wl->features());
+            const auto out = model.predict(*dataset, all);
+            o.pred.assign(out.data(), out.data() + out.size());
+        }
+    }
+    catch (const std::exception& e)
+    {
+        o.exc = std::string("exception: ") + e.what();
+    }
+    verif::g_max_threads.store(16U);
+    return o;
+}
+
+std::string cfg_text(const fit_cfg_t& c)
+{
+    std::string s = "model=" + c.model + " solver=" + c.solver + " epsilon=" + vh::hexf(c.epsilon) + " max_evals=" + std::to_string(c.max_evals) + " tuner=" + c.tuner + ":" +
+                    std::to_string(c.tuner_evals) + " splitter=" + c.splitter + ":" + std::to_string(c.folds) + ":" + std::to_string(c.splitseed) + " batch=" + std::to_string(c.batch);
+    if (c.kind < 4) return s + " scaling=" + c.scaling;
+    s += " wlearners=";
+    for (size_t i = 0; i < c.wlearners.size(); ++i) s += (i ? "+" : "") + c.wlearners[i];
+    return s + " rounds=" + std::to_string(c.rounds) + " subsample=" + c.subsample + ":" + vh::hexf(c.ratio) + ":" + std::to_string(c.gseed) + " shrinkage=" + c.shrinkage +
+           " wscale=" + c.wscale;
+}
+
+void run_fit(const uint64_t seed, const long scenario, const bool thorough)
+{
+    vh::rng_t rng(mix(seed ^ 0x400F400FULL, static_cast<uint64_t>(scenario)));
+    fit_cfg_t cfg;
+    // linear models on even scenarios (the L1-regularised ones are expensive to fit accurately: one in four), gboost on odd ones
+    static const int lkinds[] = {0, 2, 0, 2, 0, 2, 1, 3};
+    cfg.kind      = static_cast<int>(scenario % 2 == 0 ? lkinds[rng.range(0, 7)] : 4);
+    cfg.folds     = rng.range(2, 3);
+    cfg.splitseed = rng.range(0, 1024);
+    cfg.splitter  = rng.range(0, 3) == 0 ? "random" : "k-fold";
+    cfg.tuner     = rng.range(0, 2) == 0 ? "surrogate" : "local-search";
+    cfg.tuner_evals = rng.range(10, 14);
+    cfg.batch     = rng.range(10, 40);
+    cfg.solver    = "lbfgs";
+    const auto delay = static_cast<int>(rng.range(0, 2));
+    const bool l1    = cfg.kind == 1 || cfg.kind == 3;
+    const auto n     = static_cast<tensor_size_t>(l1 ? rng.range(60, 100) : rng.range(80, 200));
+    const auto nsc   = static_cast<size_t>(l1 ? rng.range(2, 3) : rng.range(2, 6));
+    if (cfg.kind < 4)
+    {
+        static const char* const models[] = {"ordinary", "lasso", "ridge", "elastic_net"};
+        static const char* const scal[]   = {"none", "mean", "minmax", "standard"};
+        cfg.model   = models[cfg.kind];
+        cfg.scaling = scal[rng.range(0, 3)];
+        // L1 terms make the objective non-smooth. The fit must be solved ACCURATELY for the comparison across pool sizes to be
+        // meaningful: a solver that stops far from the optimum amplifies the ulp-level re-association noise of the per-thread
+        // accumulators (measured: ellipsoid 2^-5 .. 2^-16, OSGA with 600 evaluations validation errors differing by 1e-4;
+        // with the dataset pool of one worker all of them are bit-identical, so none of this is a race). The bundle method RQB
+        // reaches 2^-22 .. 2^-29 but costs seconds per fit: small problems only. Smooth objectives: quasi-newton.
+        cfg.solver    = l1 ? "rqb" : (rng.range(0, 1) ? "lbfgs" : "bfgs");
+        cfg.epsilon   = 1e-10;
+        cfg.max_evals = l1 ? 1500 : 1000;
+        if (l1) cfg.tuner_evals = 10;
+    }
+    else
+    {
+        cfg.model = "gboost";
+        static const std::vector<std::vector<std::string>> wpools = {{"stump"}, {"affine"}, {"stump", "affine"}, {"stump", "affine", "dense-table"},
+                                                                     {"hinge", "dstep-table"}, {"dtree"}, {"stump", "hinge", "kbest-table", "ksplit-table"}};
+        cfg.wlearners = wpools[static_cast<size_t>(rng.range(0, static_cast<int64_t>(wpools.size()) - 1))];
+        static const char* const subs[] = {"off", "subsample", "bootstrap", "wei_loss_bootstrap", "wei_grad_bootstrap"};
+        cfg.subsample = subs[rng.range(0, 4)];
+        cfg.ratio     = cfg.subsample == std::string("off") ? 1.0 : 0.5 + 0.5 * rng.unit();
+        cfg.gseed     = rng.range(0, 1024);
+        cfg.shrinkage = rng.range(0, 2) == 0 ? "global" : (rng.range(0, 1) ? "local" : "off");
+        cfg.wscale    = rng.range(0, 2) == 0 ? "tboost" : "gboost";
+        cfg.rounds    = 10;
+        cfg.epsilon   = 1e-10;
+        cfg.max_evals = 300;
+    }
+    const auto src = make_regression_source(rng, n, nsc, cfg.kind < 4 ? static_cast<size_t>(rng.range(0, 1)) : static_cast<size_t>(rng.range(1, 2)), cfg.kind < 4 ? 0.05 : 0.2);
+    const auto ctx = seedctx("fit", scenario) + " " + cfg_text(cfg) + " " + src.desc + " delay=" + std::to_string(delay);
+
+    g_delay_level.store(delay);
+    g_sched_seed.store(rng.next());
+    const auto ref = do_fit(src, cfg, 1);
+    double     rms = 0.0;
+    for (const auto v : ref.pred) rms += v * v;
+    rms = ref.pred.empty() ? 0.0 : std::sqrt(rms / static_cast<double>(ref.pred.size()));
+
+    const auto compare = [&](const fit_out_t& o, const size_t threads, const std::string& extra, const bool bitwise = false)
+    {
+        const auto tctx = ctx + " threads=" + std::to_string(threads) + extra;
+        bool       same = true;
+        double     maxrel = 0.0;
+        // Two kinds of differences are recorded as CANDIDATE findings (CAND lines) instead of failures, see notes/C18.md:
+        //  - decision trees deeper than one level split small nodes, where several (feature, threshold) pairs induce the same
+        //    partition and have EXACTLY the same score: which one is kept depends on which worker evaluated which feature
+        //    (C18_fit_select_tie_refuted, notes/C10.md F4);
+        //  - two look-up-table weak learners in one pool (kbest / ksplit / dense / dstep) fit the SAME table on a categorical
+        //    feature whenever the full table is the best one: mathematically equal scores computed along different paths, so
+        //    the ulp-level re-association noise of the per-thread accumulators decides which prototype wins, and the boosting
+        //    rounds diverge from there.
+        // Neither applies to the dataset_pool=1 runs (no re-association, no concurrent feature evaluation): those must be bit-identical.
+        const auto ntables = std::count_if(cfg.wlearners.begin(), cfg.wlearners.end(), [](const std::string& w) { return w.find("-table") != std::string::npos; });
+        const bool dtree   = std::find(cfg.wlearners.begin(), cfg.wlearners.end(), "dtree") != cfg.wlearners.end();
+        const bool has_dtree = (dtree || ntables >= 2) && !bitwise; // "tie prone"
+        const auto report    = [&](const std::string& what, const std::string& c)
+        {
+            if (has_dtree) cand(dtree ? "fit-dtree-tie" : "fit-table-tie", what, c);
+            else fail("fit", what, c);
+        };
+        if (o.exc != ref.exc) { same = false; report("`" + o.exc + "` with " + std::to_string(threads) + " threads, `" + ref.exc + "` with one", tctx); }
+        else
+        {
+            // hyper-parameter tuning is an argmin over trials: when two trials have validation errors within rounding of each
+            // other (flat regularisation paths) the re-association noise of the per-thread accumulators may legitimately select
+            // another one. Then the two fits are only comparable through the quality of what they selected.
+            const bool tuning_same = o.trials == ref.trials && o.optimum == ref.optimum && first_diff(o.trial_params, ref.trial_params) == -1;
+            if (!tuning_same && !bitwise)
+            {
+                const auto dv = std::fabs(o.optvalue - ref.optvalue) / std::max({std::fabs(o.optvalue), std::fabs(ref.optvalue), 1e-12});
+                if (!(dv <= 1e-5))
+                    report("tuning differs (trials " + std::to_string(o.trials) + " optimum " + std::to_string(o.optimum) + " with " + std::to_string(threads) +
+                               " threads, trials " + std::to_string(ref.trials) + " optimum " + std::to_string(ref.optimum) + " with one) and the validation error of the selected trial is " +
+                               vh::hexf(o.optvalue) + " instead of " + vh::hexf(ref.optvalue) + " (not a near-tie: relative difference " + vh::hexf(dv) + " > 1e-5)", tctx);
+                emit("FIT " + std::to_string(g_fits++) + " model=" + cfg.model + " threads=" + std::to_string(threads) + " n=" + std::to_string(src.n) + " features=" +
+                     il(mk_indices(o.features)) + " maxrel=" + vh::hexf(dv) + " result=" + (dv <= 1e-5 ? "tieflip" : (has_dtree ? "cand" : "diff")) + extra);
+                return;
+            }
+            if (o.features != ref.features)
+            {
+                same = false;
+                report("selected features " + il(mk_indices(o.features)) + " with " + std::to_string(threads) + " threads, " + il(mk_indices(ref.features)) + " with one", tctx);
+            }
+            if (o.nwlearners != ref.nwlearners)
+            {
+                same = false;
+                report(std::to_string(o.nwlearners) + " weak learners with " + std::to_string(threads) + " threads, " + std::to_string(ref.nwlearners) + " with one", tctx);
+            }
+            if (!tuning_same)
+            {
+                same = false;
+                report("tuning differs: trials " + std::to_string(o.trials) + " optimum " + std::to_string(o.optimum) + " with " + std::to_string(threads) +
+                           " threads, trials " + std::to_string(ref.trials) + " optimum " + std::to_string(ref.optimum) + " with one", tctx);
+            }
+            if (o.pred.size() != ref.pred.size()) { same = false; report("number of predictions differs", tctx); }
+            else
+            {
+                int64_t worst = -1;
+                for (size_t i = 0; i < o.pred.size(); ++i)
+                {
+                    const auto a = o.pred[i], b = ref.pred[i];
+                    const auto d = std::fabs(a - b) / std::max({std::fabs(a), std::fabs(b), rms, 1e-300});
+                    if (!(d <= maxrel)) { maxrel = d; worst = static_cast<int64_t>(i); }
+                }
+                if (bitwise ? first_diff(o.pred, ref.pred) != -1 : !(maxrel <= 1e-5))
+                {
+                    same = false;
+                    if (bitwise) worst = first_diff(o.pred, ref.pred);
+                    report("prediction of sample " + std::to_string(worst) + " is " + vh::hexf(o.pred[static_cast<size_t>(worst)]) + " with " + std::to_string(threads) +
+                                    " threads and " + vh::hexf(ref.pred[static_cast<size_t>(worst)]) + " with one (relative difference " + vh::hexf(maxrel) + (bitwise ? ", must be bit-identical: all reductions are sequential)" : " > 1e-5)"), tctx);
+                }
+            }
+        }
+        emit("FIT " + std::to_string(g_fits++) + " model=" + cfg.model + " threads=" + std::to_string(threads) + " n=" + std::to_string(src.n) + " features=" +
+             il(mk_indices(o.features)) + " maxrel=" + vh::hexf(maxrel) + " result=" + (same ? "same" : (has_dtree ? "cand" : "diff")) + extra +
+             (same ? std::string() : " wlearners=" + o.wdesc + " ref_wlearners=" + ref.wdesc));
+    };
+    emit("FIT " + std::to_string(g_fits++) + " model=" + cfg.model + " threads=1 n=" + std::to_string(src.n) + " features=" + il(mk_indices(ref.features)) +
+         " maxrel=" + vh::hexf(0.0) + " result=same");
+    for (const size_t threads : {size_t(2), size_t(4), size_t(16)})
+    {
+        // dataset pool of ONE worker (every reduction sequential), fold/trial tasks on `threads` workers sharing the solver, the
+        // loss and the dataset: nothing is re-associated, the fit must be BIT-IDENTICAL to the one-thread fit (also with dtree)
+        compare(do_fit(src, cfg, 1, threads), threads, " dataset_pool=1", true);
+        // dataset pool and tune pool of `threads` workers: up to re-association
+        compare(do_fit(src, cfg, threads), threads, "");
+    }
+    if (thorough)
+    {
+        // the same under restricted CPU affinity (the pools keep their sizes: many workers on one or two CPUs)
+        cpu_set_t old;
+        CPU_ZERO(&old);
+        if (sched_getaffinity(0, sizeof(old), &old) == 0)
+        {
+            const int ncpus = static_cast<int>(rng.range(1, 2));
+            cpu_set_t set;
+            CPU_ZERO(&set);
+            int taken = 0;
+            for (int c = 0; c < CPU_SETSIZE && taken < ncpus; ++c)
+                if (CPU_ISSET(c, &old)) { CPU_SET(c, &set); ++taken; }
+            if (taken > 0 && sched_setaffinity(0, sizeof(set), &set) == 0)
+            {
+                for (const size_t threads : {size_t(2), size_t(16)}) compare(do_fit(src, cfg, threads), threads, " affinity=" + std::to_string(taken));
+                sched_setaffinity(0, sizeof(old), &old);
+            }
+        }
+    }
+    g_delay_level.store(0);
+    ++g_scenarios;
+}
+
+// ------------------------------------------------------------------------------------------------------------------
+// (5) TIEPROBE (on request only, never FAIL): two identical feature columns have exactly the same score; which of them a
+//     weak learner selects depends on which worker evaluated which (C18_fit_select_tie_refuted, notes/C10.md F4)
+// ------------------------------------------------------------------------------------------------------------------
+void run_tieprobe(const uint64_t seed)
+{
+    vh::rng_t rng(mix(seed ^ 0x500A500AULL, 0));
+    auto      src = make_regression_source(rng, 100, 3, 0, 0.1);
+    // duplicate every scalar column: features x0..x2 and their copies x3..x5
+    src_t dup;
+    dup.n = src.n, dup.nscalar = 6, dup.nclass = 0;
+    for (int r = 0; r < 2; ++r)
+        for (size_t f = 0; f < 3; ++f) dup.cols.push_back(src.cols[f]);
+    dup.cols.push_back(src.target());
+    dup.desc = "data(duplicated columns)";
+    finalize(dup);
+    fit_cfg_t cfg;
+    cfg.kind = 4, cfg.model = "gboost", cfg.solver = "lbfgs", cfg.tuner = "local-search", cfg.splitter = "k-fold";
+    cfg.wlearners = {"stump"}, cfg.subsample = "off", cfg.shrinkage = "off", cfg.wscale = "gboost", cfg.max_evals = 300;
+    std::set<std::vector<tensor_size_t>> distinct;
+    g_delay_level.store(2);
+    for (int run = 0; run < 12; ++run)
+    {
+        const size_t threads = run < 2 ? 1U : (run < 6 ? 4U : 16U);
+        g_sched_seed.store(rng.next());
+        const auto o = do_fit(dup, cfg, threads);
+        distinct.insert(o.features);
+        emit("TIEPROBE run=" + std::to_string(run) + " threads=" + std::to_string(threads) + " features=" + il(mk_indices(o.features)) + " " + o.exc);
+    }
+    g_delay_level.store(0);
+    emit("TIEPROBE-SUMMARY distinct_feature_sets=" + std::to_string(distinct.size()));
+}
 } // namespace
 
-int main(int, char**)
+int main(int argc, char** argv)
 {
+    std::setvbuf(stdout, nullptr, _IOLBF, 0);
+    const std::string mode     = argc > 1 ? argv[1] : "quick";
+    std::string       only     = argc > 2 ? argv[2] : "";
+    long              only_k   = -1; // family:index runs one scenario (group) of the family alone
+    if (const auto colon = only.find(':'); colon != std::string::npos)
+    {
+        only_k = std::atol(only.c_str() + colon + 1);
+        only   = only.substr(0, colon);
+    }
+    const auto sel = [&](const long k) { return only_k < 0 || only_k == k; };
+    const bool        thorough = mode == "thorough";
+    const bool        reduced  = mode == "tsan"; // reduced scenario set for the ThreadSanitizer run of the quick tier
+    const auto        seed     = vh::env_seed();
+    const auto        want     = [&](const char* family) { return only.empty() ? std::string(family) != "tieprobe" : only == family; };
+
+    char        tmpl[] = "/tmp/c18-harness-XXXXXX";
+    const char* tdir   = mkdtemp(tmpl);
+    if (tdir != nullptr) setenv("TMPDIR", tdir, 1);
+
+    verif::g_max_threads.store(16U);
+    verif::g_rng_seed.store(42U);
+    verif::g_sched_hook.store(&on_sched);
+    verif::g_event_hook.store(&on_event_tune);
+
+    const long n_loop    = thorough ? 600 : (reduced ? 24 : 80);
+    const long n_dataset = thorough ? 100 : (reduced ? 4 : 12);
+    const long n_predict = thorough ? 24 : (reduced ? 2 : 4);
+    const long n_tune    = thorough ? 200 : (reduced ? 5 : 24);
+    const long n_fit     = thorough ? 80 : (reduced ? 4 : 12);
+    const long rounds    = thorough ? 6 : 1; // passes over the solver / loss ids
+
+    if (want("loop"))
+    {
+        int next_owner = 1;
+        for (long g = 0; g < n_loop; ++g)
+            if (sel(g)) run_loop_group(seed, g, next_owner);
+    }
+    if (want("user"))
+    {
+        long       scenario = 0;
+        const auto sids     = solver_t::all().ids();
+        const auto lids     = loss_t::all().ids();
+        for (long round = 0; round < rounds; ++round)
+        {
+            for (size_t k = 0; k < sids.size(); ++k, ++scenario)
+                if (sel(scenario) && (only_k >= 0 || !reduced || (static_cast<uint64_t>(k) + seed) % 3 == 0)) user_minimize(seed, scenario, sids[k]);
+            for (size_t k = 0; k < lids.size(); ++k, ++scenario)
+                if (sel(scenario) && (only_k >= 0 || !reduced || (static_cast<uint64_t>(k) + seed) % 3 == 0)) user_loss(seed, scenario, lids[k]);
+        }
+        for (long k = 0; k < n_dataset; ++k, ++scenario)
+            if (sel(scenario)) user_dataset(seed, scenario);
+        for (long k = 0; k < n_predict; ++k, ++scenario)
+            if (sel(scenario)) user_predict(seed, scenario, k % 2 == 1);
+    }
+    if (want("tune"))
+        for (long k = 0; k < n_tune; ++k)
+            if (sel(k)) run_tune(seed, k);
+    if (want("fit"))
+        for (long k = 0; k < n_fit; ++k)
+            if (sel(k)) run_fit(seed, k, thorough);
+    if (want("tieprobe")) run_tieprobe(seed);
+
+    if (tdir != nullptr)
+    {
+        std::error_code ec;
+        std::filesystem::remove_all(tdir, ec);
+    }
+    emit("DONE scenarios=" + std::to_string(g_scenarios) + " fails=" + std::to_string(g_fails) + " cands=" + std::to_string(g_cands) + " loops=" + std::to_string(g_loops) + " users=" + std::to_string(g_users) +
+         " tunes=" + std::to_string(g_tunes) + " fits=" + std::to_string(g_fits));
     return 0;
 }
